@@ -3,7 +3,6 @@
    lower-bound slot — and nothing else (no allocation, same root, every other page untouched). *)
 From Coq Require Import Lia ZifyBool ZifyN ZifyNat.
 From NDB Require Import Base.Bytes Base.Bytes_proofs BTree.BTree BTree.Spec BTree.Leaf_proofs.
-Set Default Timeout 30.
 
 Lemma ins_fits h n k v : forall fuel q p cells r d,
   find_leaf fuel h q k = inl (Some (p, cells, r, d)) -> leaf_can_insert cells d k = true ->
